@@ -1,11 +1,315 @@
+//! The grammar corpus.  Conventions (mirsym relies on them):
+//!  * at most one `construct!` per function (its closure is identified by the enclosing fn)
+//!  * every typed value is `u32`
+//!  * names are distinct across the levels of one grammar
 use bpaf::*;
 
 // ---------------------------------------------------------------------------------------------
-// G1: one of each named shape
+// flat grammars of named items (C01, C03, C05, C06, C10, C20)
+
+/// one switch, required / optional / repeated argument
 pub fn g1() -> OptionParser<(bool, u32, Option<u32>, Vec<u32>)> {
     let a = short('a').long("alpha").switch();
     let b = short('b').long("beta").argument::<u32>("B");
     let c = short('c').long("gamma").argument::<u32>("C").optional();
     let d = short('d').long("delta").argument::<u32>("D").many();
     construct!(a, b, c, d).to_options()
+}
+
+/// required flag, counted flag, some / last / defaulted argument
+pub fn g2() -> OptionParser<((), usize, Vec<u32>, u32, u32)> {
+    let r = short('r').long("req").req_flag(());
+    let v = short('v').long("verbose").req_flag(()).count();
+    let s = short('s').long("some").argument::<u32>("S").some("want at least one S");
+    let l = short('l').long("last").argument::<u32>("L").last();
+    let f = short('f').long("fall").argument::<u32>("F").fallback(42);
+    construct!(r, v, s, l, f).to_options()
+}
+
+/// aliases: several short and long names per item
+pub fn g3() -> OptionParser<(bool, Option<u32>)> {
+    let a = short('a').short('A').long("alpha").long("al").switch();
+    let b = short('b').long("beta").long("be").short('B').argument::<u32>("B").optional();
+    construct!(a, b).to_options()
+}
+
+// ---------------------------------------------------------------------------------------------
+// named items + positionals
+
+/// switch, optional argument, one required and one optional positional
+pub fn p1() -> OptionParser<(bool, Option<u32>, u32, Option<u32>)> {
+    let a = short('a').long("alpha").switch();
+    let b = short('b').long("beta").argument::<u32>("B").optional();
+    let x = positional::<u32>("X");
+    let y = positional::<u32>("Y").optional();
+    construct!(a, b, x, y).to_options()
+}
+
+/// repeated argument and a repeated positional tail
+pub fn p2() -> OptionParser<(Vec<u32>, Vec<u32>)> {
+    let d = short('d').long("delta").argument::<u32>("D").many();
+    let xs = positional::<u32>("XS").many();
+    construct!(d, xs).to_options()
+}
+
+/// strictness: non_strict, then strict many (C09)
+pub fn p3() -> OptionParser<(bool, Option<u32>, Vec<u32>)> {
+    let a = short('a').long("alpha").switch();
+    let x = positional::<u32>("X").non_strict().optional();
+    let ys = positional::<u32>("YS").strict().many();
+    construct!(a, x, ys).to_options()
+}
+
+/// one strict required positional next to an argument
+pub fn p4() -> OptionParser<(Option<u32>, u32)> {
+    let b = short('b').long("beta").argument::<u32>("B").optional();
+    let x = positional::<u32>("X").strict();
+    construct!(b, x).to_options()
+}
+
+/// unrestricted positionals only
+pub fn p5() -> OptionParser<(u32, Vec<u32>)> {
+    let x = positional::<u32>("X");
+    let ys = positional::<u32>("YS").many();
+    construct!(x, ys).to_options()
+}
+
+// ---------------------------------------------------------------------------------------------
+// subcommands
+
+#[derive(Debug, Clone, PartialEq)]
+pub enum Cmd1 {
+    Add(bool, u32),
+    Rm(Option<u32>, Vec<u32>),
+}
+
+fn c1_add() -> OptionParser<Cmd1> {
+    let n = short('n').long("new").switch();
+    let x = positional::<u32>("X");
+    construct!(Cmd1::Add(n, x)).to_options().descr("add things")
+}
+
+fn c1_rm() -> OptionParser<Cmd1> {
+    let f = short('f').long("force").argument::<u32>("F").optional();
+    let ys = positional::<u32>("YS").many();
+    construct!(Cmd1::Rm(f, ys)).to_options().descr("remove things")
+}
+
+fn c1_cmds() -> impl Parser<Cmd1> {
+    let add = c1_add().command("add").short('a');
+    let rm = c1_rm().command("rm").long("remove");
+    construct!([add, rm])
+}
+
+/// top level switch and argument, then a choice of two subcommands
+pub fn c1() -> OptionParser<(bool, Option<u32>, Cmd1)> {
+    let v = short('v').long("verbose").switch();
+    let t = short('t').long("top").argument::<u32>("T").optional();
+    let cmd = c1_cmds();
+    construct!(v, t, cmd).to_options()
+}
+
+#[derive(Debug, Clone, PartialEq)]
+pub enum Inner2 {
+    Leaf(bool, Option<u32>),
+}
+
+fn c2_leaf() -> OptionParser<Inner2> {
+    let z = short('z').long("zed").switch();
+    let w = positional::<u32>("W").optional();
+    construct!(Inner2::Leaf(z, w)).to_options()
+}
+
+fn c2_mid() -> OptionParser<(bool, Inner2)> {
+    let m = short('m').long("mid").switch();
+    let leaf = c2_leaf().command("leaf");
+    construct!(m, leaf).to_options()
+}
+
+/// depth 2: top -> mid -> leaf
+pub fn c2() -> OptionParser<(bool, (bool, Inner2))> {
+    let v = short('v').long("verbose").switch();
+    let mid = c2_mid().command("mid");
+    construct!(v, mid).to_options()
+}
+
+/// optional subcommand next to a switch
+pub fn c3() -> OptionParser<(bool, Option<Cmd1>)> {
+    let v = short('v').long("verbose").switch();
+    let cmd = c1_add().command("add").optional();
+    construct!(v, cmd).to_options()
+}
+
+// ---------------------------------------------------------------------------------------------
+// conversion / validation (C06)
+
+fn big(x: &u32) -> bool {
+    *x >= 10
+}
+
+/// guard on a required argument, guard under optional, guard under many+fallback
+pub fn v1() -> OptionParser<(u32, Option<u32>, Vec<u32>)> {
+    let a = short('a').long("alpha").argument::<u32>("A").guard(big, "must be big");
+    let b = short('b').long("beta").argument::<u32>("B").guard(big, "must be big").optional();
+    let c = short('c').long("gamma").argument::<u32>("C").guard(big, "must be big").many();
+    construct!(a, b, c).to_options()
+}
+
+fn half(x: u32) -> Result<u32, &'static str> {
+    if x >= 10 {
+        Ok(x)
+    } else {
+        Err("too small")
+    }
+}
+
+/// `parse` step under fallback / last / some
+pub fn v2() -> OptionParser<(u32, u32, Vec<u32>)> {
+    let a = short('a').long("alpha").argument::<u32>("A").parse(half).fallback(7);
+    let b = short('b').long("beta").argument::<u32>("B").parse(half).last();
+    let c = short('c').long("gamma").argument::<u32>("C").parse(half).some("need C");
+    construct!(a, b, c).to_options()
+}
+
+/// optional positional with a guard, fallback positional
+pub fn v3() -> OptionParser<(Option<u32>, u32)> {
+    let x = positional::<u32>("X").guard(big, "must be big").optional();
+    let y = positional::<u32>("Y").fallback(3);
+    construct!(x, y).to_options()
+}
+
+// ---------------------------------------------------------------------------------------------
+// groups (C05, C06): optional / repeated sequential groups
+
+fn grp_ab() -> impl Parser<(u32, u32)> {
+    let a = short('a').long("alpha").argument::<u32>("A");
+    let b = short('b').long("beta").argument::<u32>("B");
+    construct!(a, b)
+}
+
+/// optional group of two required arguments plus a switch
+pub fn o1() -> OptionParser<(Option<(u32, u32)>, bool)> {
+    let g = grp_ab().optional();
+    let s = short('s').long("sw").switch();
+    construct!(g, s).to_options()
+}
+
+/// repeated group
+pub fn o2() -> OptionParser<(Vec<(u32, u32)>, bool)> {
+    let g = grp_ab().many();
+    let s = short('s').long("sw").switch();
+    construct!(g, s).to_options()
+}
+
+// ---------------------------------------------------------------------------------------------
+// alternatives (C07)
+
+#[derive(Debug, Clone, PartialEq)]
+pub enum Alt {
+    A,
+    B(u32),
+    C(u32, u32),
+}
+
+fn alt_c() -> impl Parser<Alt> {
+    let x = short('x').long("ex").argument::<u32>("X");
+    let y = short('y').long("why").argument::<u32>("Y");
+    construct!(Alt::C(x, y))
+}
+
+fn alt3() -> impl Parser<Alt> {
+    let a = short('a').long("alpha").req_flag(Alt::A);
+    let b = short('b').long("beta").argument::<u32>("B").map(Alt::B);
+    let c = alt_c();
+    construct!([a, b, c])
+}
+
+/// bare choice between a flag, an argument and a two-argument group
+pub fn a1() -> OptionParser<(Alt, bool)> {
+    let alt = alt3();
+    let s = short('s').long("sw").switch();
+    construct!(alt, s).to_options()
+}
+
+/// optional choice
+pub fn a2() -> OptionParser<(Option<Alt>, bool)> {
+    let alt = alt3().optional();
+    let s = short('s').long("sw").switch();
+    construct!(alt, s).to_options()
+}
+
+/// repeated choice: values follow command line order
+pub fn a3() -> OptionParser<(Vec<Alt>, bool)> {
+    let alt = alt3().many();
+    let s = short('s').long("sw").switch();
+    construct!(alt, s).to_options()
+}
+
+// ---------------------------------------------------------------------------------------------
+// environment variables (C18)
+
+/// env-backed switch, required / optional / many argument, fallback argument
+pub fn e1() -> OptionParser<(bool, u32, Option<u32>, Vec<u32>, u32)> {
+    let a = short('a').long("alpha").env("VERIF_A").switch();
+    let b = short('b').long("beta").env("VERIF_B").argument::<u32>("B");
+    let c = short('c').long("gamma").env("VERIF_C").argument::<u32>("C").optional();
+    let d = short('d').long("delta").env("VERIF_D").argument::<u32>("D").many();
+    let f = short('f').long("fall").env("VERIF_F").argument::<u32>("F").fallback(42);
+    construct!(a, b, c, d, f).to_options()
+}
+
+// ---------------------------------------------------------------------------------------------
+// adjacency (C02 adjacent arguments, C19 adjacent groups)
+
+/// `adjacent` argument: only `-b=V`, `-bV`, `--beta=V`
+pub fn j1() -> OptionParser<(bool, Option<u32>)> {
+    let a = short('a').long("alpha").switch();
+    let b = short('b').long("beta").argument::<u32>("B").adjacent().optional();
+    construct!(a, b).to_options()
+}
+
+fn point() -> impl Parser<(u32, u32)> {
+    let p = short('p').long("point").req_flag(());
+    let x = positional::<u32>("X");
+    let y = positional::<u32>("Y");
+    construct!(p, x, y).adjacent().map(|t| (t.1, t.2))
+}
+
+/// multi-value option `--point X Y`, repeated, next to a switch and a trailing positional
+pub fn k1() -> OptionParser<(Vec<(u32, u32)>, bool, Option<u32>)> {
+    let pts = point().many();
+    let s = short('s').long("sw").switch();
+    let z = positional::<u32>("Z").optional();
+    construct!(pts, s, z).to_options()
+}
+
+fn rect() -> impl Parser<(u32, u32)> {
+    let r = short('r').long("rect").req_flag(());
+    let w = short('w').long("width").argument::<u32>("W");
+    let h = short('h').long("height").argument::<u32>("H");
+    construct!(r, w, h).adjacent().map(|t| (t.1, t.2))
+}
+
+/// option-struct `--rect --width W --height H`, optional, next to a switch
+pub fn k2() -> OptionParser<(Option<(u32, u32)>, bool)> {
+    let r = rect().optional();
+    let s = short('s').long("sw").switch();
+    construct!(r, s).to_options().help_parser(long("help").help("help"))
+}
+
+// ---------------------------------------------------------------------------------------------
+// help / version configuration (C10)
+
+/// version configured, custom descr
+pub fn h1() -> OptionParser<(bool, u32)> {
+    let a = short('a').long("alpha").switch();
+    let b = short('b').long("beta").argument::<u32>("B");
+    construct!(a, b).to_options().version("1.2.3").descr("h1 test")
+}
+
+/// subcommand with its own version, fallback_to_usage
+pub fn h2() -> OptionParser<(bool, Cmd1)> {
+    let v = short('v').long("verbose").switch();
+    let cmd = c1_add().version("9.9").command("add");
+    construct!(v, cmd).to_options().fallback_to_usage()
 }
